@@ -59,6 +59,24 @@ Fixpoint dec_pkts (n : nat) (l : list N) : option (list pkt * list N) :=
             | None => None end
   end.
 
+(* a packet handed to the API: its view followed by its serialisation (length-prefixed; kept for
+   replay and for the codec tie, not used by the state machine) *)
+Definition dec_pkt_b (l : list N) : option (pkt * list N) :=
+  match dec_pkt l with
+  | Some (p, l1) => match take_lp l1 with Some (_, l2) => Some (p, l2) | None => None end
+  | None => None
+  end.
+
+Fixpoint dec_pkts_b (n : nat) (l : list N) : option (list pkt * list N) :=
+  match n with
+  | O => Some ([], l)
+  | S n' => match dec_pkt_b l with
+            | Some (p, l1) => match dec_pkts_b n' l1 with
+                              | Some (ps, l2) => Some (p :: ps, l2)
+                              | None => None end
+            | None => None end
+  end.
+
 Definition timer_n (k : timer) : N := match k with TPingreqSend => 0 | TPingreqRecv => 1 | TPingrespRecv => 2 end.
 Definition timer_of (n : N) : timer := if n =? 0 then TPingreqSend else if n =? 1 then TPingreqRecv else TPingrespRecv.
 
@@ -66,7 +84,7 @@ Definition dec_op (l : list N) : option (op * list N) :=
   match l with
   | [] => None
   | tag :: t =>
-    if tag =? 0 then match dec_pkt t with Some (p, r) => Some (OSend p, r) | None => None end
+    if tag =? 0 then match dec_pkt_b t with Some (p, r) => Some (OSend p, r) | None => None end
     else if tag =? 1 then
       match take_lp t with
       | Some (bytes, prtag :: r) =>
@@ -91,10 +109,10 @@ Definition dec_op (l : list N) : option (op * list N) :=
     else if tag =? 14 then match t with id :: r => Some (OErase id, r) | [] => None end
     else if tag =? 15 then
       match t with
-      | n :: r => match dec_pkts (N.to_nat n) r with Some (ps, r') => Some (ORestorePackets ps, r') | None => None end
+      | n :: r => match dec_pkts_b (N.to_nat n) r with Some (ps, r') => Some (ORestorePackets ps, r') | None => None end
       | [] => None end
     else if tag =? 16 then match take_lp t with Some (ids, r) => Some (ORestoreQos2 ids, r) | None => None end
-    else if tag =? 17 then match dec_pkt t with Some (p, r) => Some (ORegulate p, r) | None => None end
+    else if tag =? 17 then match dec_pkt_b t with Some (p, r) => Some (ORegulate p, r) | None => None end
     else None
   end.
 
@@ -186,3 +204,114 @@ Fixpoint strip_prefix (pos : N) (exp got : list N) : list N + (N * N * N) :=
     | y :: g' => if x =? y then strip_prefix (pos + 1) e' g' else inr (pos, x, y)
     end
   end.
+
+(* ---- decoding of what the implementation reported (events, state digest), so that monitors
+   can judge the implementation's own trace and the per-property comparison can restart from
+   the implementation's state at every call ---- *)
+Definition dec_event (l : list N) : option (event * list N) :=
+  match l with
+  | [] => None
+  | t :: r =>
+    if t =? 0 then
+      match dec_pkt r with
+      | Some (p, r1) => match dec_opt r1 with Some (rel, r2) => Some (ESend p rel, r2) | None => None end
+      | None => None end
+    else if t =? 1 then match dec_pkt r with Some (p, r1) => Some (ENotify p, r1) | None => None end
+    else if t =? 2 then match r with id :: r1 => Some (EReleased id, r1) | [] => None end
+    else if t =? 3 then match r with k :: ms :: r1 => Some (ETimerReset (timer_of k) ms, r1) | _ => None end
+    else if t =? 4 then match r with k :: r1 => Some (ETimerCancel (timer_of k), r1) | [] => None end
+    else if t =? 5 then match r with e :: r1 => Some (EError e, r1) | [] => None end
+    else if t =? 6 then Some (EClose, r)
+    else None
+  end.
+
+Fixpoint dec_events_n (n : nat) (l : list N) : option (list event * list N) :=
+  match n with
+  | O => Some ([], l)
+  | S n' => match dec_event l with
+            | Some (e, l1) => match dec_events_n n' l1 with
+                              | Some (es, l2) => Some (e :: es, l2)
+                              | None => None end
+            | None => None end
+  end.
+Definition dec_events (l : list N) : option (list event * list N) :=
+  match l with n :: r => dec_events_n (N.to_nat n) r | [] => None end.
+
+Definition dec_pairs (l : list N) : option (list (N * N) * list N) :=
+  match l with
+  | n :: r => match take (2 * N.to_nat n) r with Some (x, r') => Some (pairs x, r') | None => None end
+  | [] => None
+  end.
+
+Fixpoint dec_a2t (n : nat) (l : list N) : option (list (N * list N) * list N) :=
+  match n with
+  | O => Some ([], l)
+  | S n' => match l with
+            | a :: r => match take_lp r with
+                        | Some (t, r1) => match dec_a2t n' r1 with
+                                          | Some (x, r2) => Some ((a, t) :: x, r2) | None => None end
+                        | None => None end
+            | [] => None end
+  end.
+Fixpoint dec_t2a (n : nat) (l : list N) : option (list (list N * list N) * list N) :=
+  match n with
+  | O => Some ([], l)
+  | S n' => match take_lp l with
+            | Some (t, r) => match take_lp r with
+                             | Some (al, r1) => match dec_t2a n' r1 with
+                                                | Some (x, r2) => Some ((t, al) :: x, r2) | None => None end
+                             | None => None end
+            | None => None end
+  end.
+
+Definition status_of (n : N) : status := if n =? 0 then Disconnected else if n =? 1 then Connecting else Connected.
+Definition rstate_of (n : N) : rstate := if n =? 0 then SHdr else if n =? 1 then SLen else SPayload.
+
+(* option-monad plumbing *)
+Definition obind {A B} (o : option A) (f : A -> option B) : option B := match o with Some a => f a | None => None end.
+Notation "'do' x <- e ; k" := (obind e (fun x => k)) (at level 200, x pattern, e at level 100, k at level 200).
+
+Definition dec_num (l : list N) : option (N * list N) := match l with x :: r => Some (x, r) | [] => None end.
+
+Definition dec_conn (g : cfg) (l : list N) : option (conn * list N) :=
+  do (ver, l) <- dec_num l;
+  do (free, l) <- dec_pairs l;
+  do (suback, l) <- take_lp l;
+  do (unsuback, l) <- take_lp l;
+  do (puback, l) <- take_lp l;
+  do (pubrec, l) <- take_lp l;
+  do (pubcomp, l) <- take_lp l;
+  do (need_store, l) <- dec_num l;
+  do (nstore, l) <- dec_num l;
+  do (store, l) <- dec_pkts (N.to_nat nstore) l;
+  do (f1, l) <- dec_num l; do (f2, l) <- dec_num l; do (f3, l) <- dec_num l; do (f4, l) <- dec_num l; do (f5, l) <- dec_num l;
+  do (tar_p, l) <- dec_num l;
+  do (tarv, l) <- (if n2b tar_p then
+                     do (mx, l) <- dec_num l; do (n, l) <- dec_num l; do (m, l) <- dec_a2t (N.to_nat n) l;
+                     Some (Some (mkTar mx m), l)
+                   else Some (None, l));
+  do (tas_p, l) <- dec_num l;
+  do (tasv, l) <- (if n2b tas_p then
+                     do (mx, l) <- dec_num l; do (n, l) <- dec_num l; do (a2t, l) <- dec_a2t (N.to_nat n) l;
+                     do (n2, l) <- dec_num l; do (t2a, l) <- dec_t2a (N.to_nat n2) l;
+                     do (fr, l) <- dec_pairs l;
+                     Some (Some (mkTas mx a2t t2a (mkAlloc 1 mx 65535 fr)), l)
+                   else Some (None, l));
+  do (send_max, l) <- dec_opt l;
+  do (recv_max, l) <- dec_opt l;
+  do (send_count, l) <- dec_num l;
+  do (publish_recv, l) <- take_lp l;
+  do (mps_send, l) <- dec_num l; do (mps_recv, l) <- dec_num l; do (st, l) <- dec_num l;
+  do (user_ping, l) <- dec_opt l; do (ka, l) <- dec_num l; do (ska, l) <- dec_opt l;
+  do (prt, l) <- dec_num l; do (prr, l) <- dec_num l;
+  do (qos2, l) <- take_lp l;
+  do (t1, l) <- dec_num l; do (t2, l) <- dec_num l; do (t3, l) <- dec_num l;
+  do (pst, l) <- dec_num l; do (hdr, l) <- take_lp l; do (rem, l) <- dec_num l; do (buf, l) <- take_lp l;
+  do (is_client, l) <- dec_num l;
+  do (_vac, l) <- dec_opt l;
+  let mult := 128 ^ (N.of_nat (length hdr) - 1) in
+  Some (mkConn (ver_of ver) (mkAlloc 1 (g_idmax g) (g_idmax g) free) suback unsuback puback pubrec pubcomp
+               (n2b need_store) store (n2b f1) (n2b f2) (n2b f3) (n2b f4) (n2b f5) tarv tasv
+               send_max recv_max send_count publish_recv mps_send mps_recv (status_of st)
+               user_ping ka ska prt prr qos2 (n2b t1) (n2b t2) (n2b t3)
+               (mkPb (rstate_of pst) hdr rem (if pst =? 0 then 1 else mult) buf) (n2b is_client), l).
